@@ -4,6 +4,7 @@
    the theorems are stated on. *)
 From Coq Require Import ZArith List Bool Lia.
 Require Import Actions Ops RevSeq.
+Require PeriodGen.
 Import ListNotations.
 Open Scope Z_scope.
 
@@ -11,6 +12,12 @@ Open Scope Z_scope.
 Fixpoint for_down (cnt : nat) (i : Z) (body : Z -> list op -> res (list op)) (acc : list op) : res (list op) :=
   match cnt with O => Ok acc | S c => do acc' <- body i acc; for_down c (i - 1) body acc' end.
 (* argmin(list) of basic_functions.py reads list[0] first: IndexError on an empty list; min([]) is a ValueError *)
+(* while cond: body -- threading the one integer variable the body updates and the operation list; `fuel` bounds the iterations *)
+Fixpoint while_ (fuel : nat) (c : Z -> bool) (body : Z -> list op -> res (Z * list op)) (v : Z) (acc : list op) : res (Z * list op) :=
+  match fuel with
+  | O => if c v then Err OutOfFuel else Ok (v, acc)
+  | S f => if c v then (do st <- body v acc; while_ f c body (fst st) (snd st)) else Ok (v, acc)
+  end.
 Definition py_argmin (l : list Z) : res Z := match l with [] => Err IndexError | _ => Ok (argmin l) end.
 Definition py_min (l : list Z) : res Z := match l with [] => Err ValueError | _ => Ok (zmin_list l 0) end.
 
@@ -65,5 +72,86 @@ Proof.
     cbn [app]. rewrite <- !app_assoc. reflexivity.
   - destruct (RevSeq.revolve _ opt_0 uf l cm) as [s2|e]; cbn [bind]; reflexivity.
 Qed.
+
+(* ---- periodic_disk_revolve ---- *)
+Definition periodic_shape (opt_0 : list (list Z)) (uf mx l cm : Z) : res (list op) :=
+  let sequence : list op := [] in
+  let current_task := 0 in do st_ <- while_ (Z.to_nat l) (fun current_task => ((l - current_task) >? mx)) (fun current_task sequence => let sequence := sequence ++ [OWD current_task] in let sequence := sequence ++ [OF current_task (current_task + mx)] in let current_task := current_task + mx in Ok (current_task, sequence)) current_task sequence; let current_task := fst st_ in let sequence := snd st_ in do x1_ <- revolve_shape (Z.to_nat (2 * l + 4)) opt_0 uf (l - current_task) cm; let sequence := sequence ++ (shift current_task x1_) in do st_ <- while_ (Z.to_nat l) (fun current_task => (current_task >? 0)) (fun current_task sequence => let current_task := current_task - mx in let sequence := sequence ++ [ORD current_task] in do x2_ <- revolve_shape (Z.to_nat (2 * mx + 4)) opt_0 uf (mx - 1) cm; let sequence := sequence ++ (shift current_task x2_) in Ok (current_task, sequence)) current_task sequence; let current_task := fst st_ in let sequence := snd st_ in Ok sequence.
+
+
+(* the body of RevSeq.periodic_top after its preamble (period, table) *)
+Definition periodic_body (opt0 : list (list Z)) (uf mx l cm : Z) : res (list op) :=
+  let '(fw, ct) := per_fwd (Z.to_nat l) l mx 0 in
+  do s <- revolve (Z.to_nat (2*l+4)) opt0 uf (l - ct) cm;
+  do bk <- per_back (Z.to_nat l) opt0 uf mx cm ct;
+  Ok (fw ++ shift ct s ++ bk).
+Lemma periodic_top_body l cm rd wd uf ub : periodic_top l cm rd wd uf ub =
+  let mx := mxrr cm uf rd wd in do t <- get_opt_0_table (Z.max mx mx + 1) cm uf ub; do o <- periodic_body t uf mx l cm; Ok (o, mx).
+Proof.
+  unfold periodic_top, periodic_body. cbv zeta. destruct (get_opt_0_table _ cm uf ub) as [t|e]; cbn [bind]; [|reflexivity].
+  destruct (per_fwd (Z.to_nat l) l (mxrr cm uf rd wd) 0) as [fw ct]. destruct (revolve _ t uf (l - ct) cm) as [s|e]; cbn [bind]; [|reflexivity].
+  destruct (per_back _ t uf _ cm ct) as [bk|e]; reflexivity.
+Qed.
+
+Lemma fwd_while l mx body : 1 <= mx ->
+  (forall ct acc, body ct acc = Ok (ct + mx, acc ++ [OWD ct; OF ct (ct + mx)])) ->
+  forall cnt ct acc, l - ct <= Z.of_nat cnt -> 
+    while_ cnt (fun ct => l - ct >? mx) body ct acc = Ok (snd (per_fwd cnt l mx ct), acc ++ fst (per_fwd cnt l mx ct)).
+Proof.
+  intros Hmx Hb. induction cnt as [|c IH]; intros ct acc Hc; cbn [while_ per_fwd].
+  - destruct (l - ct >? mx) eqn:E; [apply Z.gtb_lt in E; lia|]. cbn [fst snd]. rewrite app_nil_r. reflexivity.
+  - destruct (l - ct >? mx) eqn:E; [|cbn [fst snd]; rewrite app_nil_r; reflexivity].
+    rewrite Hb. cbn [bind fst snd]. rewrite IH by lia. destruct (per_fwd c l mx (ct + mx)) as [r ct']. cbn [fst snd]. rewrite <- app_assoc. reflexivity.
+Qed.
+Lemma back_while opt0 uf mx cm body : 1 <= mx ->
+  (forall ct acc, body ct acc = do x <- revolve (Z.to_nat (2 * mx + 4)) opt0 uf (mx - 1) cm; Ok (ct - mx, acc ++ [ORD (ct - mx)] ++ shift (ct - mx) x)) ->
+  forall cnt ct acc, ct <= Z.of_nat cnt ->
+    (do st <- while_ cnt (fun ct => ct >? 0) body ct acc; Ok (snd st)) = (do r <- per_back cnt opt0 uf mx cm ct; Ok (acc ++ r)).
+Proof.
+  intros Hmx Hb. induction cnt as [|c IH]; intros ct acc Hc; cbn [while_ per_back].
+  - destruct (ct >? 0) eqn:E; [apply Z.gtb_lt in E; lia|]. cbn [bind snd]. rewrite app_nil_r. reflexivity.
+  - destruct (ct >? 0) eqn:E; [|cbn [bind snd]; rewrite app_nil_r; reflexivity].
+    rewrite Hb. destruct (revolve _ opt0 uf (mx - 1) cm) as [x|e]; cbn [bind fst snd]; [|reflexivity].
+    rewrite IH by lia. destruct (per_back c opt0 uf mx cm (ct - mx)) as [r|e]; cbn [bind]; [|reflexivity]. rewrite <- !app_assoc. reflexivity.
+Qed.
+
+Lemma per_fwd_le l mx : 0 <= mx -> forall cnt ct, ct <= l -> snd (per_fwd cnt l mx ct) <= l.
+Proof.
+  intros Hmx. induction cnt as [|c IH]; intros ct Hc; cbn [per_fwd]; [exact Hc|].
+  destruct (l - ct >? mx) eqn:E; [|exact Hc]. apply Z.gtb_lt in E. specialize (IH (ct + mx) ltac:(lia)).
+  destruct (per_fwd c l mx (ct + mx)) as [r ct']. exact IH.
+Qed.
+Theorem periodic_shape_is_model opt0 uf mx l cm : 1 <= mx -> 0 <= l -> periodic_shape opt0 uf mx l cm = periodic_body opt0 uf mx l cm.
+Proof.
+  intros Hmx Hl. unfold periodic_shape, periodic_body. cbv zeta.
+  rewrite (fwd_while l mx) by (try lia; intros; cbn [app]; rewrite <- ?app_assoc; reflexivity).
+  pose proof (per_fwd_le l mx ltac:(lia) (Z.to_nat l) 0 Hl) as Hct.
+  destruct (per_fwd (Z.to_nat l) l mx 0) as [fw ct]. cbn [bind fst snd app] in *. rewrite revolve_shape_is_model.
+  destruct (revolve _ opt0 uf (l - ct) cm) as [s|e]; cbn [bind]; [|reflexivity].
+  pose proof (back_while opt0 uf mx cm
+    (fun current_task sequence => let current_task := current_task - mx in let sequence := sequence ++ [ORD current_task] in
+       do x2_ <- revolve_shape (Z.to_nat (2 * mx + 4)) opt0 uf (mx - 1) cm; let sequence := sequence ++ shift current_task x2_ in Ok (current_task, sequence))
+    Hmx) as HB.
+  match goal with |- (do st_ <- ?W; _) = _ => specialize (HB ltac:(intros ct0 acc; cbv zeta; rewrite revolve_shape_is_model; destruct (revolve _ opt0 uf (mx - 1) cm); cbn [bind]; rewrite <- ?app_assoc; reflexivity) (Z.to_nat l) ct (fw ++ shift ct s) ltac:(lia)) end.
+  cbv zeta in HB. 
+  rewrite HB. destruct (per_back _ opt0 uf mx cm ct) as [bk|e]; cbn [bind]; [|reflexivity]. rewrite <- app_assoc. reflexivity.
+Qed.
+Print Assumptions periodic_shape_is_model.
+(* the three top-level calls of the constructors (RevConv.sequence), read on the translated source *)
+Theorem periodic_top_is_source l cm rd wd uf ub : 0 <= l -> periodic_top l cm rd wd uf ub =
+  let mx := mxrr cm uf rd wd in do t <- get_opt_0_table (Z.max mx mx + 1) cm uf ub; do o <- periodic_shape t uf mx l cm; Ok (o, mx).
+Proof.
+  intros Hl. rewrite periodic_top_body. cbv zeta. destruct (get_opt_0_table _ cm uf ub) as [t|e]; cbn [bind]; [|reflexivity].
+  rewrite periodic_shape_is_model; [reflexivity|apply PeriodGen.mxrr_pos|exact Hl].
+Qed.
+Theorem revolve_top_is_source l cm uf ub : revolve_top l cm uf ub = do t <- get_opt_0_table l cm uf ub; revolve_shape (Z.to_nat (2*l+4)) t uf l cm.
+Proof. unfold revolve_top. destruct (get_opt_0_table l cm uf ub); cbn [bind]; [apply eq_sym, revolve_shape_is_model|reflexivity]. Qed.
+Theorem disk_revolve_top_is_source l cm rd wd uf ub : disk_revolve_top l cm rd wd uf ub =
+  do t <- get_opt_0_table l cm uf ub; do ti <- get_opt_inf_table l cm uf ub rd wd t; disk_revolve_shape (Z.to_nat (l+2)) t ti uf rd wd l cm.
+Proof.
+  unfold disk_revolve_top. destruct (get_opt_0_table l cm uf ub) as [t|]; cbn [bind]; [|reflexivity].
+  destruct (get_opt_inf_table l cm uf ub rd wd t); cbn [bind]; [apply eq_sym, disk_revolve_shape_is_model|reflexivity].
+Qed.
+Print Assumptions periodic_top_is_source.
 Print Assumptions revolve_shape_is_model.
 Print Assumptions disk_revolve_shape_is_model.
